@@ -512,17 +512,32 @@ fn run_job(scen: &Value, names: &[String], job: &Value, budget: usize, want_ops:
     // "share": "ref" — all threads use ONE handle by reference (as `&Gauge` in thread::scope or an `Arc<Gauge>` would);
     // default: every thread owns a clone of the handle
     let share_ref = scen["obj"].get("share").and_then(|x| x.as_str()) == Some("ref");
-    let obj_arc: Arc<Obj> = Arc::new(make_obj(&scen["obj"]));
-    let obj: &Obj = &obj_arc;
-    let cells = known_cells(obj);
+    // "creator": "<thread>" — the object under test is created ON that scripted thread (before it comes under the scheduler)
+    // instead of on the controller, so that one of the racing threads is the thread that built the metric
+    let creator: Option<usize> = scen["obj"].get("creator").and_then(|x| x.as_str()).and_then(|c| names.iter().position(|x| x == c));
     let mut sched = Sched::new(n);
     let cur_call: Arc<Mutex<Vec<String>>> = Arc::new(Mutex::new(vec![String::new(); n]));
-    for tid in 0..n {
+    let (otx, orx) = std::sync::mpsc::channel::<Arc<Obj>>();
+    let mut order: Vec<usize> = (0..n).collect();
+    if let Some(k) = creator {
+        order.retain(|x| *x != k);
+        order.insert(0, k);
+    }
+    let mut obj_slot: Option<Arc<Obj>> = if creator.is_none() { Some(Arc::new(make_obj(&scen["obj"]))) } else { None };
+    for tid in order {
         let script: Vec<Value> = scen["scripts"][&names[tid]].as_array().cloned().unwrap_or_default();
-        let o: Arc<Obj> = if share_ref { obj_arc.clone() } else { Arc::new(obj.clone()) };
         let cc = cur_call.clone();
         let tname = names[tid].clone();
-        sched.spawn(tid, move |ctx| {
+        let pre: Box<dyn FnOnce() -> Arc<Obj> + Send> = if Some(tid) == creator {
+            let spec = scen["obj"].clone();
+            let otx = otx.clone();
+            Box::new(move || { let o = Arc::new(make_obj(&spec)); otx.send(o.clone()).unwrap(); o })
+        } else {
+            let base = obj_slot.as_ref().unwrap().clone();
+            let o: Arc<Obj> = if share_ref { base } else { Arc::new((*base).clone()) };
+            Box::new(move || o)
+        };
+        sched.spawn_pre(tid, pre, move |ctx, o: Arc<Obj>| {
             let mut loc = Locals::default();
             for (i, op) in script.iter().enumerate() {
                 cc.lock().unwrap()[ctx.tid] = op["k"].as_str().unwrap().to_owned();
@@ -540,7 +555,13 @@ fn run_job(scen: &Value, names: &[String], job: &Value, budget: usize, want_ops:
             // make sure thread-local handles are dropped while still hooked? (drop of locals may flush)
             drop(loc);
         });
+        if Some(tid) == creator {
+            obj_slot = Some(orx.recv().expect("creator thread"));
+        }
     }
+    let obj_arc: Arc<Obj> = obj_slot.unwrap();
+    let obj: &Obj = &obj_arc;
+    let cells = known_cells(obj);
     let keys: Vec<String> = scen["obj"].get("keys").and_then(|x| x.as_array()).map(|a| a.iter().map(|x| x.as_str().unwrap().to_owned()).collect()).unwrap_or_default();
     // "pre": calls made by the controller before any thread starts (initial population); recorded as a strictly
     // ordered prefix of the history with negative time stamps
